@@ -245,3 +245,65 @@ func HarnessClaimRace() {
 	vAssert(vRaceCount() == 0, "claimrace: no data race")
 	vCover(true, "claim race explored")
 }
+
+// ---- the probe loop itself (T2): results are applied in the order the probes were issued ----
+
+var vProbeResultsApplied int
+
+//verif:stub (*github.com/basecamp/kamal-proxy/internal/server.Target).HealthCheckCompleted harness=HarnessProbeLoop
+func stubHealthCheckCompletedCounted(t *Target, success bool) {
+	t.HealthCheckCompleted(success)
+	vProbeResultsApplied++
+}
+
+// HarnessProbeLoop: one target probed by the real health-check loop (interval, probe timeout and every probe's
+// latency symbolic, outcomes 2xx / failure); at a moment when no probe result is in transit a request is claimed: it
+// gets the target exactly when the most recently issued of the completed probes succeeded.
+func HarnessProbeLoop() {
+	vT2(vParam("preemptions", 0), vParam("firings", 12))
+	interval := vDur("interval")
+	vAssume(interval > 0)
+	ptimeout := vDur("probe_timeout")
+	vAssume(ptimeout > 0)
+	topts := TargetOptions{HealthCheckConfig: HealthCheckConfig{Path: "/up", Interval: interval, Timeout: ptimeout}}
+	P := vParam("probes", 3)
+	sc := &vProbeScript{parkAfter: true}
+	for p := 0; p < P; p++ {
+		tag := "p" + vItoa(p)
+		status := 500
+		if vBool(tag + "_ok") {
+			status = 200
+		}
+		sc.outcomes = append(sc.outcomes, vProbeOutcome{kind: vProbeStatus, status: status, latency: vDur(tag + "_lat")})
+	}
+	vProbeScripts["t0:80"] = sc
+	tl, err := NewTargetList([]string{"t0:80"}, topts)
+	vAssert(err == nil, "probe loop: target builds")
+	lb := NewLoadBalancer(tl)
+	completed := func() int {
+		n := 0
+		for _, e := range vTrace {
+			if e.kind == "probe_end" {
+				n++
+			}
+		}
+		return n
+	}
+	k := vIntRange("claim_after", 0, 2*P)
+	vBlockUntil(func() bool { return (len(vTrace) >= k || vProbeParked > 0) && completed() == vProbeResultsApplied })
+	_, _, cerr := lb.claimTarget(vPlainRequest("/"))
+	vNote(vTraceString())
+	latest, ok := -1, false
+	for _, e := range vTrace {
+		if e.kind == "probe_end" && e.req > latest {
+			latest, ok = e.req, e.ok
+		}
+	}
+	if latest >= 0 {
+		vAssert((cerr == nil) == ok, "probe loop: a target receives requests exactly when its latest probe succeeded")
+	} else {
+		vAssert(cerr == ErrorNoHealthyTargets, "probe loop: a target that has not answered a probe yet receives nothing")
+	}
+	vCover(latest >= 1 && ok, "healthy after a later probe reachable")
+	vCover(latest >= 1 && !ok, "unhealthy after a later probe reachable")
+}
